@@ -64,6 +64,9 @@ def handleOne (kind : String) (s n off : String) (impl : String) : String :=
 def handle (op : String) (args : List String) (impl : String) : String :=
   match op, args with
   | "tssys", [s, n] => handleOne "sys" s n "0" impl
+  -- the modification time of a source file handed to `PackageBuilder::with_file`: the same SystemTime conversion, reached
+  -- through the builder (src/rpm/builder.rs `modified()?.try_into()?`)
+  | "tsfile", [s, n] => handleOne "sys" s n "0" impl
   | "tsutc", [s, n] => handleOne "utc" s n "0" impl
   | "tsfix", [s, n, off] => handleOne "fix" s n off impl
   | "tspair", [k1, s1, n1, o1, k2, s2, n2, o2] =>
@@ -113,6 +116,6 @@ def handle (op : String) (args : List String) (impl : String) : String :=
         answer (modelObs src impl) v ("leap:" ++ kind ++ ":" ++ region t.secs)
   | _, _ => badReq "op"
 
-def ops : List String := ["tssys", "tsutc", "tsfix", "tspair", "tsleap"]
+def ops : List String := ["tssys", "tsutc", "tsfix", "tspair", "tsleap", "tsfile"]
 
 end RpmVerif.Driver.C20
